@@ -136,7 +136,7 @@ var (
 	swPeriod = []uint{0, 1, 30}
 	swSkew   = []uint{0, 1, 10, 11, 1 << 40}
 	swCtr    = []uint64{0, 1, 1<<64 - 1}
-	swText   = []string{"", "I", "a b", "x:y"}
+	swText   = []string{"", "I", "a b", "x:y", "line\nbreak", "tab\t", "nul\x00", "del\x7f", "cr\r\n", "%zz", "\xff\xfe", "\u2028"}
 	swURLNum = []string{"", "6", "abc", "-1", "256", "99999999999999999999"}
 	swURLAlg = []string{"", "SHA1", "MD5", "sha512"}
 	swTypes  = []string{"totp", "hotp", "xotp", ""}
